@@ -130,6 +130,43 @@ def h_quasi(ctx, d, n, is_eigh, use_stab, with_cap, shift=0, lead=False):
     ctx.claim('argument_untouched', all(bool(ctx.all_eq(x, y)) for x, y in zip(Y, Y0)))
 
 
+def h_quasi_outer(ctx, n, is_eigh, use_stab):
+    """Outer product of two super-diagonal tensors (d = 2 + 2): an interior
+    TT-rank-1 bond with truncatable bonds on both sides."""
+    YA, WA = quasi_diag_tt(ctx, 2, n, name='p')
+    YB, WB = quasi_diag_tt(ctx, 2, n, name='q')
+    Y = YA + YB
+    Y0 = [G.copy() for G in Y]
+    dd = 4
+    e = ctx.real('e')
+    ctx.assume(ctx.gt(e, 0))
+    ctx.assume(ctx.lt(e, 1))
+    Z = teneva.truncate(Y, e, use_stab=use_stab, is_eigh=is_eigh)
+    ctx.claim('well_formed', well_formed(Z, [n] * dd))
+    ranks = [G.shape[2] for G in Z[:-1]]
+    a = [WA[0][i] * WA[1][i] for i in range(n)]
+    b = [WB[0][i] * WB[1][i] for i in range(n)]
+    na2 = sum((x * x for x in a), ctx.const(0))
+    nb2 = sum((x * x for x in b), ctx.const(0))
+    nrm2 = na2 * nb2
+    F0 = ref_full(Y0)
+    err2 = sumsq(ref_full(Z) - F0)
+    ctx.claim('error_bound', ctx.le(err2, e * e * nrm2))
+    budget = e * e * nrm2 / (dd - 1)
+
+    def tails_of(vals, other2):
+        srt = sorted(range(n), key=lambda i: _Key(ctx, vals[i]), reverse=True)
+        sv = [vals[i] for i in srt]
+        return [sum((x * x for x in sv[j:]), ctx.const(0)) * other2 for j in range(n + 1)]
+    tl = [tails_of(a, nb2), [nrm2, ctx.const(0)], tails_of(b, na2)]
+    ctx.claim('middle_bond_rank_one', ranks[1] == 1)
+    for q, t in zip(ranks, tl):
+        ok = ctx.any_([q == 1] + [ctx.all_([ctx.le(t[j], budget), q <= max(1, j)]) for j in range(len(t))])
+        ctx.claim('rank_quasi_optimal', ok)
+    rss = sum((t[min(q, len(t) - 1)] for q, t in zip(ranks, tl)), ctx.const(0))
+    ctx.claim('error_le_rss_of_best', ctx.le(err2, rss))
+
+
 def h_add_many(ctx, n, trunc_freq):
     """add_many on disjoint-support rank-1 summands (d = 3): the sum is the
     super-diagonal tensor; the final rounding obeys the bound."""
@@ -199,7 +236,10 @@ def instances(tier):
             if not is_eigh:
                 it['opts'] = {'symbolic_signs': False}
             out.append(it)
+    out.append({'func': 'h_quasi_outer', 'params': {'n': 2, 'is_eigh': True, 'use_stab': False}})
+    out.append({'func': 'h_quasi_outer', 'params': {'n': 2, 'is_eigh': False, 'use_stab': False}, 'opts': {'symbolic_signs': False}})
     if not quick:
+        out.append({'func': 'h_quasi_outer', 'params': {'n': 2, 'is_eigh': True, 'use_stab': True}})
         out.append({'func': 'h_quasi', 'params': {'d': 3, 'n': 3, 'is_eigh': True, 'use_stab': False, 'with_cap': True,
                                                    'shift': 1, 'lead': False}})
     for n, tf in ([(2, 1), (2, 15)] if quick else [(2, 1), (2, 15), (3, 1), (3, 2)]):
